@@ -75,7 +75,8 @@ def run_proof(modname, proofname, opts=None, sources=None):
         res['native'] = getattr(decl, 'native', True)
         ex = Explorer(branch_timeout_ms=opts.get('branch_timeout_ms', 5000),
                       query_timeout_ms=opts.get('query_timeout_ms', 10000),
-                      max_paths=opts.get('max_paths', 60000))
+                      max_paths=opts.get('max_paths', 60000),
+                      cross_check=bool(opts.get('cross_check')))
         undo_base = snapshot_modules(it)
 
         def one(path):
@@ -96,14 +97,22 @@ def run_proof(modname, proofname, opts=None, sources=None):
                 ob = ex.obligation(name)
                 ob.queries += 1
                 import z3
-                if path.solver.check() != z3.unsat:
-                    mdl = path.solver.model() if \
-                        path.solver.check() == z3.sat else None
+                path.solver.set('timeout', ex.query_timeout_ms)
+                feas = path.solver.check()
+                path.solver.set('timeout', ex.branch_timeout_ms)
+                if feas == z3.sat:
+                    mdl = path.solver.model()
                     ob.failed.append({
-                        'inputs': path.model_inputs(mdl) if mdl is not None
-                        else {}, 'decisions':
+                        'inputs': path.model_inputs(mdl), 'decisions':
                         list(path.decisions[:path.pos]),
                         'exception': desc})
+                elif feas != z3.unsat:
+                    # the path may be infeasible: the solver could not tell.
+                    # Undecided, never a violation.
+                    ob.undecided.append(
+                        'exception %s on a path whose feasibility the '
+                        'solver could not decide (%s)' % (
+                            desc.get('type'), path.solver.reason_unknown()))
                 raise PathEnd()
         ex.run(one)
         ob = ex.obligation('no-unexpected-exception')
@@ -117,6 +126,7 @@ def run_proof(modname, proofname, opts=None, sources=None):
         res['branch_queries'] = ex.stats.branch_queries
         res['solver_time_s'] = round(ex.stats.solver_time, 3)
         res['covered'] = sorted(ex.covered)
+        res['cross_check'] = dict(ex.crossed)
         # vacuity guards: obligations only ever reached under an
         # unsatisfiable path condition, and cover points of this proof that
         # no feasible path reached
